@@ -16,6 +16,8 @@ CONSTANTS
  MaxMergeInputs = 0
  AsyncRelease = FALSE
   WithMergeFail = FALSE
+ BuilderBase = FALSE
+ CopySchedById = FALSE
  MaxOpens = 3
 INVARIANTS RootIsReplay BoltFilesOnDisk RootFilesOnDisk CopyFilesOnDisk
 CHECK_DEADLOCK FALSE
